@@ -213,6 +213,7 @@ class FrameQueueFrag(FrameQueue):
     def __init__(self, queue: Optional[Union["FrameQueue", "FrameQueueFrag"]] = None):
         super().__init__(queue)
         self._frags = RF24NetworkFrame()  # initialize cache
+        self._frags.header.from_node = None  # type: ignore[assignment] # cache is empty
 
     def enqueue(self, frame: RF24NetworkFrame) -> bool:
         """Add a `RF24NetworkFrame` to the queue."""
@@ -221,7 +222,8 @@ class FrameQueueFrag(FrameQueue):
                 self._frags.unpack(frame.pack())  # make copy not reference
                 return True
             if (
-                self._frags.header.from_node is not None  # if not just initialized
+                self._frags.header.from_node is not None  # if cache is not empty
+                and frame.header.from_node == self._frags.header.from_node
                 and frame.header.to_node == self._frags.header.to_node
                 and frame.header.frame_id == self._frags.header.frame_id
             ):
@@ -238,7 +240,10 @@ class FrameQueueFrag(FrameQueue):
                         # External data needs to be propagated back to update()
                         frame.header.message_type = NETWORK_EXT_DATA  # by reference
                     self._frags.header.message_type = frame.header.reserved
-                    return super().enqueue(self._frags)
+                    result = super().enqueue(self._frags)
+                    # the message is complete; empty the cache
+                    self._frags.header.from_node = None  # type: ignore[assignment]
+                    return result
                 return True
             # print("dropping fragment due to missing 1st fragment")
             return False
